@@ -5,7 +5,7 @@ import LanceModel.C07.Model
 C07 driver.  Op lines (grammar: top of harness/src/bin/c07.rs)
 
   create s=<0|1> f=<nat> k=<K> <rows> | append f=<nat> <rows> | overwrite f=<nat> k=<K> <rows>
-  delete lt <int> | delete ge <int> | delete in <int,…> | delete all | restore <v>
+  delete lt <int> | delete ge <int> | delete in <int,…> | delete all | restore <v> | restore@<h> <v>
 
 → `ok v=<version> k=<K> nrid=<next_row_id> mfid=<max_fragment_id|none> frags=<id:rows:dels,…> scan=<rows with _rowid>`,
 `err <kind>` or `err parse`.  The state is the model history of the case.
@@ -67,6 +67,12 @@ def parseOp (line : String) : Option Op :=
   | ["delete", "ge", x] => (parseInt x).map fun v => .delete (.ge v)
   | ["delete", "in", xs] => ((xs.splitOn ",").mapM parseInt).map fun vs => .delete (.isIn vs)
   | ["restore", v] => (parseNat v).map .restore
+  | [r, v] =>
+    if r.startsWith "restore@" then do
+      let hv ← parseNat (String.ofList (r.toList.drop 8))
+      let v ← parseNat v
+      some (.restoreAt hv v)
+    else none
   | _ => none
 
 def showHist (h : Hist) : String :=
